@@ -28,10 +28,35 @@ def run_property(pid, tier='quick', root='/repo', overlay=None, quiet=False,
     return rep
 
 
+def _is_known(pid):
+    from rpsa.report import load_known, norm
+    known = [k for k in load_known().get('known', []) if k['property'] == pid]
+
+    def is_known(f):
+        return any(k.get('rule') == f.rule and k.get('where') == f.where and
+                   norm(k.get('construct', '')) == f.construct for k in known)
+    return is_known
+
+
 def _try(pid, tier, root, prog, quiet):
+    """(report, None) or (None, AnalysisError).  Rules run through
+    Report.attempt may fail singly: if the remaining rules report a finding
+    that is not a known one, that finding stands (a violation is a violation
+    whatever else could not be analysed); otherwise the view is not
+    analysable."""
     try:
         rep = run_property(pid, tier, root, quiet=quiet, prog=prog)
-        rep.verify_minimums()
+        try:
+            rep.verify_minimums()
+        except AnalysisError as e:
+            if not rep.errors:
+                raise
+            rep.errors.append(e)
+        if rep.errors:
+            is_known = _is_known(pid)
+            if not any(not is_known(f) for f in rep.findings):
+                return None, rep.errors[0]
+            rep.partial = True
         return rep, None
     except AnalysisError as e:
         return None, e
@@ -54,20 +79,16 @@ def run_consensus(pid, tier='quick', root='/repo', overlay=None, quiet=False,
                   prog=None):
     """Run the rules on the tree as it is (view 0).  If that view reports
     findings or cannot be analysed, run them again on the normalised tree
-    (view 1: freshly extracted helpers inlined, hoisted tests / cached
-    attributes propagated, comprehensions desugared - all behaviour
-    preserving).  A finding is reported only if both views have it (same rule,
-    same file); if one view cannot be analysed the other one decides; if
-    neither can, the AnalysisError of view 0 is raised."""
-    from rpsa.report import load_known, norm
+    (views 1, 2: freshly extracted helpers inlined, hoisted tests / cached
+    attributes propagated, table dispatch expanded; comprehensions desugared
+    - all behaviour preserving).  A finding is reported only if every
+    analysable view has it (same rule, same function); if a view cannot be
+    analysed the others decide; if none can, the AnalysisError of view 0 is
+    raised."""
     if prog is None:
         prog = Program(root, overlay=overlay)
     rep0, err0 = _try(pid, tier, root, prog, quiet)
-    known = [k for k in load_known().get('known', []) if k['property'] == pid]
-
-    def is_known(f):
-        return any(k.get('rule') == f.rule and k.get('where') == f.where and
-                   norm(k.get('construct', '')) == f.construct for k in known)
+    is_known = _is_known(pid)
     if err0 is None and all(is_known(f) for f in rep0.findings):
         rep0.stats['views'] = 1
         return rep0
